@@ -123,6 +123,9 @@ def snapshot(files):
     `#[cfg(kani)] #[path=..] mod ..;` line appended to each attach target. Idempotent; keeps
     mtimes so cargo rebuilds only what changed in /repo or in the harness files."""
     WORK.mkdir(parents=True, exist_ok=True)
+    # not while another check of this work dir compiles from the snapshot
+    bl = BuildLock()
+    bl.acquire()
     lock = open(WORK / "ws.lock", "w")
     fcntl.flock(lock, fcntl.LOCK_EX)
     try:
@@ -174,6 +177,7 @@ def snapshot(files):
     finally:
         fcntl.flock(lock, fcntl.LOCK_UN)
         lock.close()
+        bl.release()
 
 
 # --------------------------------------------------------------------------------------
@@ -272,7 +276,7 @@ RE_COVER = re.compile(r"\*\* (\d+) of (\d+) cover properties satisfied")
 RE_TIME = re.compile(r"Verification Time: ([\d.]+)s")
 RE_FAILED = re.compile(r"^Failed Checks: (.*)$", re.M)
 RE_CHECK = re.compile(
-    r"^Check \d+: (\S+)\n\s+- Status: (\w+)\n\s+- Description: \"(.*)\"\n(?:\s+- Location: (.*)\n)?", re.M)
+    r"^Check \d+: (.+)\n\s+- Status: (\w+)\n\s+- Description: \"(.*)\"\n(?:\s+- Location: (.*)\n)?", re.M)
 
 
 def parse_kani(out):
@@ -298,6 +302,10 @@ def parse_kani(out):
             r["cover_results"].append({"desc": desc, "status": status})
         elif status == "FAILURE":
             r["failed_checks"].append({"check": name, "status": status, "desc": desc, "loc": loc or ""})
+    if r["verdict"] == "FAILED" and not r["failed_checks"]:
+        # never let an unparsed failure look like "nothing failed": fall back to the summary lines
+        for m in RE_FAILED.finditer(out):
+            r["failed_checks"].append({"check": "?", "status": "FAILURE", "desc": m.group(1).strip().strip('"'), "loc": ""})
     for fc in r["failed_checks"]:
         d = fc["desc"]
         if "unwinding assertion" in d or "recursion unwinding" in d:
@@ -346,7 +354,10 @@ def run_group(hs, tier, logdir):
     for h in hs:
         for f in resdir.glob(f"*::{h.name}") if resdir.exists() else []:
             f.unlink()
-    jobs = max(1, min(NJOBS, len(hs)))
+    biggest = max((h.mem or MEM_CAP_GB[tier]) for h in hs)
+    # caps are per process; most harnesses stay far below them, so the parallelism is planned on
+    # 60 % of the largest cap and a group-wide guard (below) handles the rare overshoot
+    jobs = max(1, min(NJOBS, len(hs), int(MEM_BUDGET_GB // (0.6 * biggest))))
     cmd = kani_cmd(h0, TARGET, ["-j", str(jobs), "--output-format", "terse", "--output-into-files"],
                    names=[h.name for h in hs])
     lock = BuildLock()
@@ -370,6 +381,17 @@ def run_group(hs, tier, logdir):
                 if cb or "Checking harness" in txt:
                     build_s = time.time() - t0
                     lock.release()
+            total_rss = sum(rss for _, _, rss, _ in cb) / 1024 / 1024
+            if total_rss > MEM_BUDGET_GB and cb:
+                # group-wide guard: stop the largest CBMC, it is reported as out of memory
+                pid, et, rss, args = max(cb, key=lambda x: x[2])
+                hbig = next((x for x in hs if (x.name + ".out") in args), None)
+                if hbig is not None and hbig.name not in killed:
+                    killed[hbig.name] = f"out of memory (group budget {MEM_BUDGET_GB} GB)"
+                    try:
+                        os.kill(pid, signal.SIGKILL)
+                    except ProcessLookupError:
+                        pass
             for pid, et, rss, args in cb:
                 h = next((x for x in hs if (x.name + ".out") in args), None)
                 if h is None:
@@ -674,6 +696,14 @@ def check_property(prop, tier, seed, only=None, jobs=None):
                     known_lines.append(line)
                     log(line)
             res["known"] = [k["id"] for _, k in matched]
+            if not matched and not rest:
+                # FAILED without a single parsed failed check: not a pass, not a known finding
+                res["outcome"] = "inconclusive"
+                res["reason"] = "CBMC reported FAILED but no failed check could be parsed"
+                if exit_code != 1:
+                    exit_code = 2
+                log(f"INCONCLUSIVE property={prop} harness={h.name}: {res['reason']} (log {res['log']})")
+                continue
             if rest:
                 kd = [k["match"] for _, k in matched]
                 if h.replay == "model":
@@ -768,8 +798,9 @@ def write_evidence(prop, tier, seed, results, missing, wall, violations, known_l
         "wall_s": round(wall, 1),
         "violations": violations,
     }
-    (VERIF / "evidence").mkdir(exist_ok=True)
-    (VERIF / "evidence" / f"{prop}.json").write_text(json.dumps(ev, indent=1))
+    evdir = Path(os.environ.get("VERIF_EVIDENCE_DIR", str(VERIF / "evidence")))
+    evdir.mkdir(parents=True, exist_ok=True)
+    (evdir / f"{prop}.json").write_text(json.dumps(ev, indent=1))
 
 
 def setup():
